@@ -60,12 +60,13 @@ func (f *Select) Call(s *slip.Scope, args slip.List, depth int) (result slip.Obj
 		ci      int
 	)
 	d2 := depth + 1
-	if f.prepClauses(s, args, d2) {
-		return f.reflectClauses(s, args, d2)
+	chans, refl := f.prepClauses(s, args, d2)
+	if refl {
+		return f.reflectClauses(s, args, chans, d2)
 	}
-	for _, a := range args {
+	for i, a := range args {
 		clause := a.(slip.List)
-		switch c1 := clause[0].(type) {
+		switch c1 := chans[i].(type) {
 		case Channel:
 			sc[ci] = c1
 			clauses[ci] = clause
@@ -108,19 +109,22 @@ func (f *Select) Call(s *slip.Scope, args slip.List, depth int) (result slip.Obj
 	return
 }
 
-func (f *Select) prepClauses(s *slip.Scope, args slip.List, depth int) bool {
+// prepClauses evaluates the channel form of every clause. The channels are
+// returned and not stored in the clauses, the code is evaluated again the
+// next time and must look its channels up again.
+func (f *Select) prepClauses(s *slip.Scope, args slip.List, depth int) (chans []slip.Object, refl bool) {
 	var (
 		ccnt int
 		tcnt int
-		refl bool
 	)
-	for _, a := range args {
+	chans = make([]slip.Object, len(args))
+	for i, a := range args {
 		clause, ok := a.(slip.List)
 		if !ok || len(clause) == 0 {
 			slip.TypePanic(s, depth, "clause", a, "list")
 		}
-		clause[0] = slip.EvalArg(s, clause, 0, depth)
-		switch clause[0].(type) {
+		chans[i] = slip.EvalArg(s, clause, 0, depth)
+		switch chans[i].(type) {
 		case Channel:
 			ccnt++
 		case TimeChannel:
@@ -129,14 +133,13 @@ func (f *Select) prepClauses(s *slip.Scope, args slip.List, depth int) bool {
 			refl = true
 		}
 	}
-	return refl || maxTimeChan < tcnt || maxSlipChan < ccnt
+	return chans, refl || maxTimeChan < tcnt || maxSlipChan < ccnt
 }
 
-func (f *Select) reflectClauses(s *slip.Scope, clauses slip.List, depth int) (result slip.Object) {
+func (f *Select) reflectClauses(s *slip.Scope, clauses slip.List, chans []slip.Object, depth int) (result slip.Object) {
 	cases := make([]reflect.SelectCase, len(clauses))
 	for i, a := range clauses {
-		clause := a.(slip.List)
-		rcv := reflect.ValueOf(clause[0])
+		rcv := reflect.ValueOf(chans[i])
 		if rcv.Kind() != reflect.Chan {
 			slip.TypePanic(s, depth, "clause[0]", a, "channel")
 		}
